@@ -1523,6 +1523,7 @@ func TestVerifC15Buffers(t *testing.T) {
 		{Name: "aes-fec-loss", Cipher: "aes", DS: 2, PS: 2, Loss: 12, Clients: 1, Bytes: 800000, Stream: true},
 		{Name: "gcm-fec-loss", Cipher: "aes-gcm", DS: 3, PS: 1, Loss: 8, Clients: 1, Bytes: 800000},
 		{Name: "salsa20-dup", Cipher: "salsa20", Dup: 1, Clients: 1, Bytes: 800000, Stream: true},
+		{Name: "aes-dup3-two-sessions", Cipher: "aes", Dup: 3, Clients: 2, Bytes: 400000, Stream: true},
 		{Name: "none-two-sessions", Cipher: "none", Clients: 2, Bytes: 1200000, Stream: true},
 		{Name: "none-fec-2+2-vs-3+1-loss", Cipher: "none", DS: 2, PS: 2, SDS: 3, SPS: 1, Loss: 6, Clients: 2, Bytes: 600000, Stream: true},
 		{Name: "aes-fec-10+3-vs-11+2-loss", Cipher: "aes", DS: 10, PS: 3, SDS: 11, SPS: 2, Loss: 5, Clients: 1, Bytes: 600000},
